@@ -217,6 +217,301 @@ theorem years_float64_strict_mono (a b : Date) (ha : Full a) (hb : Full b)
       rw [← add_div]; exact div_le_div_of_nonneg_right hq hDa0.le
     linarith
 
+/-- full dates with the same day number have the same year and day of the year -/
+theorem full_eq_cases (a b : Date) (ha : Full a) (hb : Full b) (h : a.firstDay = b.firstDay) :
+    a.year = b.year ∧ yearDay a.year a.month a.day = yearDay b.year b.month b.day := by
+  rw [full_firstDay a ha, full_firstDay b hb] at h
+  obtain ⟨a1, a2, a3, a4⟩ := ha
+  obtain ⟨b1, b2, b3, b4⟩ := hb
+  have hya := yearDay_bounds a.year a.month a.day a1 a2 (by omega) a4
+  have hyb := yearDay_bounds b.year b.month b.day b1 b2 (by omega) b4
+  unfold dayNumber at h
+  unfold yearDay at hya hyb ⊢
+  by_cases heq : a.year = b.year
+  · refine ⟨heq, ?_⟩; rw [heq] at h ⊢; omega
+  · exfalso
+    by_cases hlt : a.year < b.year
+    · have hm := daysBeforeYear_mono (y1 := (a.year : Int) + 1) (y2 := b.year) (by omega)
+      have hs := daysBeforeYear_succ a.year
+      omega
+    · have hm := daysBeforeYear_mono (y1 := (b.year : Int) + 1) (y2 := a.year) (by omega)
+      have hs := daysBeforeYear_succ b.year
+      omega
+
+/-- **`IsBefore` decided on the binary64 values agrees with calendar order** for full dates of the
+    years 1..9999: `a.Years() < b.Years()` in float64 exactly when `a` is an earlier day. -/
+theorem isBefore_float64_iff (a b : Date) (ha : Full a) (hb : Full b)
+    (hya : 1 ≤ a.year) (hya' : a.year ≤ 9999) (hyb : 1 ≤ b.year) (hyb' : b.year ≤ 9999) :
+    F64.lt (F64.years a) (F64.years b) ↔ a.firstDay < b.firstDay := by
+  constructor
+  · intro hlt
+    by_cases hc : a.firstDay < b.firstDay
+    · exact hc
+    · exfalso
+      by_cases he : a.firstDay = b.firstDay
+      · obtain ⟨hy, hd⟩ := full_eq_cases a b ha hb he
+        obtain ⟨yda, Da, ea, hyda, hDa, -⟩ := years_full a ha hya
+        obtain ⟨ydb, Db, eb, hydb, hDb, -⟩ := years_full b hb hyb
+        have h1 : yda = ydb := by
+          have : (yda : Int) = ydb := by rw [hyda, hydb, hd]
+          exact_mod_cast this
+        have h2 : Da = Db := by
+          have : (Da : Int) = Db := by rw [hDa, hDb, hy]
+          exact_mod_cast this
+        rw [ea, eb, h1, h2, hy] at hlt
+        exact absurd hlt (by unfold F64.lt; omega)
+      · have hgt : b.firstDay < a.firstDay := by omega
+        have h2 := years_float64_strict_mono b a hb ha hyb hya' hgt
+        rw [lt_iff_toQ] at hlt h2
+        exact absurd hlt (not_lt.mpr h2.le)
+  · exact years_float64_strict_mono a b ha hb hya hyb'
+
+/-! ### Containment of the partial dates, on the binary64 values -/
+
+theorem le_iff_toQ (a b : Dbl) : F64.le a b ↔ toQ a ≤ toQ b := by
+  unfold F64.le toQ
+  rw [div_le_div_iff₀ (by positivity) (by positivity)]
+  exact_mod_cast Iff.rfl
+
+/-- one float64 addition of two positive values with a sum below `2^e` -/
+theorem add_err (a b : Dbl) (e : Nat) (ha : 0 < a.mant) (hf : a.frac + b.frac ≤ 1000)
+    (h : toQ a + toQ b < 2 ^ e) :
+    |toQ (add a b) - (toQ a + toQ b)| * 2 ^ 54 ≤ 2 ^ e := by
+  have hsum : ((a.mant * 2 ^ b.frac + b.mant * 2 ^ a.frac : ℕ) : ℚ) /
+      ((2 ^ (a.frac + b.frac) : ℕ) : ℚ) = toQ a + toQ b := by
+    unfold toQ; push_cast; rw [pow_add]; field_simp
+  have hpos : 0 < a.mant * 2 ^ b.frac + b.mant * 2 ^ a.frac :=
+    Nat.add_pos_left (Nat.mul_pos ha (Nat.two_pow_pos _)) _
+  have hden : 2 ^ (a.frac + b.frac) ≤ 2 ^ 1000 := Nat.pow_le_pow_right (by omega) hf
+  have := rnd_err _ _ e hpos (Nat.two_pow_pos _) hden (by rw [hsum]; exact h)
+  rw [hsum] at this
+  exact this
+
+/-- one float64 division by two of a positive value below `2^(e+1)` -/
+theorem half_err (a : Dbl) (e : Nat) (ha : 0 < a.mant) (hf : a.frac ≤ 900)
+    (h : toQ a / 2 < 2 ^ e) :
+    |toQ (div a (ofNat 2)) - toQ a / 2| * 2 ^ 54 ≤ 2 ^ e := by
+  have hdiv : div a (ofNat 2) = rnd a.mant (2 * 2 ^ a.frac) := by simp [div, ofNat]
+  have hq : ((a.mant : ℕ) : ℚ) / ((2 * 2 ^ a.frac : ℕ) : ℚ) = toQ a / 2 := by
+    unfold toQ; push_cast; field_simp
+  have hden : 2 * 2 ^ a.frac ≤ 2 ^ 1000 := by
+    calc 2 * 2 ^ a.frac = 2 ^ (a.frac + 1) := by rw [Nat.pow_succ]; omega
+      _ ≤ 2 ^ 1000 := Nat.pow_le_pow_right (by omega) (by omega)
+  have := rnd_err a.mant (2 * 2 ^ a.frac) e ha (by positivity) hden (by rw [hq]; exact h)
+  rw [hq] at this
+  rw [hdiv]; exact this
+
+/-- a quotient that is at least one needs at most 52 fractional bits -/
+theorem fracBits_le_52 (n d : Nat) (h : d ≤ n) : fracBits n d ≤ 52 := by
+  apply fracBits_le
+  rw [Nat.mul_comm]; exact Nat.mul_le_mul_right _ h
+
+theorem rnd_frac (n d : Nat) (hn : 0 < n) : (rnd n d).frac = fracBits n d := by
+  unfold rnd; rw [if_neg (by omega)]
+
+theorem rnd_mant_pos (n d : Nat) (hn : 0 < n) (hd : 0 < d) (hd' : d ≤ 2 ^ 1000) :
+    0 < (rnd n d).mant := by
+  unfold rnd; rw [if_neg (by omega)]; simp only
+  have hk := fracBits_ok n d hn hd'
+  obtain ⟨h1, _⟩ := roundDiv_err n d (fracBits n d) hd
+  have : 0 < 2 ^ 52 * d := Nat.mul_pos (Nat.two_pow_pos _) hd
+  by_contra hc
+  have hz : roundDiv n d (fracBits n d) = 0 := by omega
+  rw [hz] at h1
+  have : (2:ℕ) ^ 52 * d ≥ 2 * d := Nat.mul_le_mul_right _ (by norm_num)
+  omega
+
+/-- shape facts about `Years()` of a full date: positive, at most 52 fractional bits -/
+theorem yearsOf_shape (y yd diy : Nat) (hy : 1 ≤ y) :
+    0 < (yearsOf y yd diy).mant ∧ (yearsOf y yd diy).frac ≤ 52 := by
+  unfold yearsOf
+  have hdiv : div (ofNat yd) (ofNat diy) = rnd yd diy := by simp [div, ofNat]
+  rw [hdiv]
+  generalize rnd yd diy = f
+  have hadd : add (ofNat y) f = rnd (y * 2 ^ f.frac + f.mant) (2 ^ f.frac) := by simp [add, ofNat]
+  rw [hadd]
+  have hge : 2 ^ f.frac ≤ y * 2 ^ f.frac + f.mant :=
+    le_trans (Nat.le_mul_of_pos_left _ hy) (Nat.le_add_right _ _)
+  have hpos : 0 < y * 2 ^ f.frac + f.mant := lt_of_lt_of_le (Nat.two_pow_pos _) hge
+  have hfr := rnd_frac (y * 2 ^ f.frac + f.mant) (2 ^ f.frac) hpos
+  have h52 := fracBits_le_52 _ _ hge
+  refine ⟨?_, by omega⟩
+  -- the scale found is at most 52, so the denominator 2^f.frac is irrelevant for positivity
+  unfold rnd; rw [if_neg (by omega)]; simp only
+  obtain ⟨h1, _⟩ := roundDiv_err (y * 2 ^ f.frac + f.mant) (2 ^ f.frac)
+    (fracBits (y * 2 ^ f.frac + f.mant) (2 ^ f.frac)) (Nat.two_pow_pos _)
+  by_contra hc
+  have hz : roundDiv (y * 2 ^ f.frac + f.mant) (2 ^ f.frac)
+      (fracBits (y * 2 ^ f.frac + f.mant) (2 ^ f.frac)) = 0 := by omega
+  rw [hz] at h1
+  have hk : 2 ^ f.frac ≤ (y * 2 ^ f.frac + f.mant) *
+      2 ^ fracBits (y * 2 ^ f.frac + f.mant) (2 ^ f.frac) :=
+    le_trans hge (Nat.le_mul_of_pos_right _ (Nat.two_pow_pos _))
+  have : 0 < 2 ^ f.frac := Nat.two_pow_pos _
+  omega
+
+/-- the float64 mean `(s + e) / 2` of two values at least 1/20 apart lies strictly between them
+    (values between 1 and 10001 with at most 52 fractional bits) -/
+theorem mid_between (s e : Dbl) (hs : 0 < s.mant) (hsf : s.frac ≤ 52) (hef : e.frac ≤ 52)
+    (h1 : 1 ≤ toQ s) (hgap : toQ s + 1 / 20 ≤ toQ e) (hub : toQ e < 10001) :
+    F64.lt s (div (add s e) (ofNat 2)) ∧ F64.lt (div (add s e) (ofNat 2)) e := by
+  have e1 := add_err s e 15 hs (by omega) (by norm_num; linarith)
+  -- shape of the sum
+  have hadd : add s e = rnd (s.mant * 2 ^ e.frac + e.mant * 2 ^ s.frac) (2 ^ (s.frac + e.frac)) := rfl
+  have hsm : 2 ^ s.frac ≤ s.mant := by
+    have : (1 : ℚ) ≤ (s.mant : ℚ) / 2 ^ s.frac := h1
+    rw [le_div_iff₀ (by positivity)] at this
+    have h' : ((2 ^ s.frac : ℕ) : ℚ) ≤ (s.mant : ℚ) := by push_cast; linarith
+    exact_mod_cast h'
+  have hge : 2 ^ (s.frac + e.frac) ≤ s.mant * 2 ^ e.frac + e.mant * 2 ^ s.frac := by
+    rw [Nat.pow_add]
+    exact le_trans (Nat.mul_le_mul_right _ hsm) (Nat.le_add_right _ _)
+  have hpos : 0 < s.mant * 2 ^ e.frac + e.mant * 2 ^ s.frac :=
+    lt_of_lt_of_le (Nat.two_pow_pos _) hge
+  have hden : 2 ^ (s.frac + e.frac) ≤ 2 ^ 1000 := Nat.pow_le_pow_right (by omega) (by omega)
+  have htm : 0 < (add s e).mant := by
+    rw [hadd]; exact rnd_mant_pos _ _ hpos (Nat.two_pow_pos _) hden
+  have htf : (add s e).frac ≤ 52 := by
+    rw [hadd, rnd_frac _ _ hpos]; exact fracBits_le_52 _ _ hge
+  have e1' : |toQ (add s e) - (toQ s + toQ e)| ≤ 2 ^ 15 / 2 ^ 54 := by
+    rw [le_div_iff₀ (by positivity)]; exact e1
+  have b1 := abs_le.mp e1'
+  have hthalf : toQ (add s e) / 2 < 2 ^ 14 := by
+    have : (2 : ℚ) ^ 15 / 2 ^ 54 < 1 := by norm_num
+    norm_num; linarith [b1.2]
+  have e2 := half_err (add s e) 14 htm (by omega) hthalf
+  have e2' : |toQ (div (add s e) (ofNat 2)) - toQ (add s e) / 2| ≤ 2 ^ 14 / 2 ^ 54 := by
+    rw [le_div_iff₀ (by positivity)]; exact e2
+  have b2 := abs_le.mp e2'
+  have hnum : (2 : ℚ) ^ 15 / 2 ^ 54 / 2 + 2 ^ 14 / 2 ^ 54 < 1 / 40 := by norm_num
+  rw [lt_iff_toQ, lt_iff_toQ]
+  constructor <;> linarith [b1.1, b1.2, b2.1, b2.2]
+
+/-- **A month-year date lies strictly inside its month on the float64 Years scale**: the rounded
+    value of `(start + end) / 2` is above `Years()` of the first day and below `Years()` of the
+    last day of the month, for every month of the years 1..9999. -/
+theorem years_float64_inside_month (y m : Nat) (h1 : 1 ≤ m) (h2 : m ≤ 12) (hy : 1 ≤ y)
+    (hy' : y ≤ 9999) :
+    F64.lt (F64.years ⟨1, m, y⟩) (F64.years ⟨0, m, y⟩) ∧
+    F64.lt (F64.years ⟨0, m, y⟩) (F64.years ⟨(dim (isLeap y) m).toNat, m, y⟩) := by
+  have hdim := dim_pos (isLeap (y : Int)) h1 h2
+  have hF1 : Full ⟨1, m, y⟩ := ⟨h1, h2, by simp, by simp; omega⟩
+  have hF2 : Full ⟨(dim (isLeap y) m).toNat, m, y⟩ := ⟨h1, h2, by simp; omega, by simp; omega⟩
+  obtain ⟨yds, D, es, hyds, hD, s1, s2, s3⟩ := years_full ⟨1, m, y⟩ hF1 hy
+  obtain ⟨yde, D', ee, hyde, hD', t1, t2, t3⟩ := years_full ⟨(dim (isLeap y) m).toNat, m, y⟩ hF2 hy
+  simp only at hyds hD hyde hD' es ee
+  have hDD : D' = D := by
+    have : (D' : Int) = D := by rw [hD, hD']
+    exact_mod_cast this
+  subst hDD
+  have hmid : F64.years ⟨0, m, y⟩ =
+      div (add (F64.years ⟨1, m, y⟩) (F64.years ⟨(dim (isLeap y) m).toNat, m, y⟩)) (ofNat 2) := by
+    have hm0 : ¬ m = 0 := by omega
+    have hy0 : ¬ y = 0 := by omega
+    have hd0 : ¬ (dim (isLeap (y : Int)) m).toNat = 0 := by omega
+    simp [F64.years, hm0, hy0, hd0]
+  rw [hmid, es, ee]
+  have hgapN : yds + 27 ≤ yde := by
+    have : (yds : Int) + 27 ≤ yde := by
+      rw [hyds, hyde]; unfold yearDay
+      have : ((dim (isLeap (y : Int)) m).toNat : Int) = dim (isLeap (y : Int)) m :=
+        Int.toNat_of_nonneg (by omega)
+      omega
+    exact_mod_cast this
+  obtain ⟨sm, sf⟩ := yearsOf_shape y yds D' hy
+  obtain ⟨_, ef⟩ := yearsOf_shape y yde D' hy
+  have errs := yearsOf_err y yds D' hy hy' s1 s2 s3
+  have erre := yearsOf_err y yde D' hy hy' t1 t2 t3
+  have es' : |toQ (yearsOf y yds D') - ((y : ℚ) + (yds : ℚ) / D')| ≤ (2 ^ 14 + 1) / 2 ^ 54 := by
+    rw [le_div_iff₀ (by positivity)]; exact errs
+  have ee' : |toQ (yearsOf y yde D') - ((y : ℚ) + (yde : ℚ) / D')| ≤ (2 ^ 14 + 1) / 2 ^ 54 := by
+    rw [le_div_iff₀ (by positivity)]; exact erre
+  have bs := abs_le.mp es'
+  have be := abs_le.mp ee'
+  have hD0 : (0 : ℚ) < D' := by exact_mod_cast (by omega : 0 < D')
+  have hD367 : (D' : ℚ) ≤ 367 := by exact_mod_cast s3
+  have hyq : (1 : ℚ) ≤ y := by exact_mod_cast hy
+  have hyq' : (y : ℚ) ≤ 9999 := by exact_mod_cast hy'
+  have hs0 : (0 : ℚ) ≤ (yds : ℚ) / D' := by positivity
+  have he1 : (yde : ℚ) / D' < 1 := by rw [div_lt_one hD0]; exact_mod_cast t2
+  have hgq : (yds : ℚ) + 27 ≤ yde := by exact_mod_cast hgapN
+  have hg : (yds : ℚ) / D' + 27 / 367 ≤ (yde : ℚ) / D' := by
+    have h27 : (27 : ℚ) / 367 ≤ 27 / D' := by
+      apply div_le_div_of_nonneg_left (by norm_num) hD0 hD367
+    have : (yds : ℚ) / D' + 27 / D' ≤ (yde : ℚ) / D' := by
+      rw [← add_div]; exact div_le_div_of_nonneg_right hgq hD0.le
+    linarith
+  have hnum : (2 : ℚ) * ((2 ^ 14 + 1) / 2 ^ 54) < 27 / 367 - 1 / 20 := by norm_num
+  have hnum2 : ((2 : ℚ) ^ 14 + 1) / 2 ^ 54 < 1 / 367 := by norm_num
+  have hs1 : (1 : ℚ) / 367 ≤ (yds : ℚ) / D' := by
+    have a : (1 : ℚ) / 367 ≤ 1 / D' := one_div_le_one_div_of_le hD0 hD367
+    have b : (1 : ℚ) / D' ≤ (yds : ℚ) / D' :=
+      div_le_div_of_nonneg_right (by exact_mod_cast s1) hD0.le
+    linarith
+  exact mid_between _ _ sm sf ef (by linarith [bs.1]) (by linarith [bs.2, be.1]) (by linarith [be.2])
+
+/-- **A year-only date lies strictly inside its year on the float64 Years scale**: `year + 0.5`
+    is above `Years()` of 1 January and below `Years()` of 31 December, years 1..9999. -/
+theorem years_float64_inside_year (y : Nat) (hy : 1 ≤ y) (hy' : y ≤ 9999) :
+    F64.lt (F64.years ⟨1, 1, y⟩) (F64.years ⟨0, 0, y⟩) ∧
+    F64.lt (F64.years ⟨0, 0, y⟩) (F64.years ⟨31, 12, y⟩) := by
+  have hF1 : Full ⟨1, 1, y⟩ := ⟨by simp, by simp, by simp, by simp [dim]⟩
+  have hF2 : Full ⟨31, 12, y⟩ := ⟨by simp, by simp, by simp, by simp [dim]⟩
+  obtain ⟨yds, D, es, hyds, hD, s1, s2, s3⟩ := years_full ⟨1, 1, y⟩ hF1 hy
+  obtain ⟨yde, D', ee, hyde, hD', t1, t2, t3⟩ := years_full ⟨31, 12, y⟩ hF2 hy
+  simp only at hyds hD hyde hD' es ee
+  have hDD : D' = D := by
+    have : (D' : Int) = D := by rw [hD, hD']
+    exact_mod_cast this
+  subst hDD
+  have hs1 : yds = 1 := by
+    have : (yds : Int) = 1 := by rw [hyds]; simp [yearDay, cum]
+    exact_mod_cast this
+  have he1 : yde + 1 = D' := by
+    have : (yde : Int) + 1 = D' := by
+      have hl := year_last (y : Int)
+      push_cast at hyde
+      rw [hyde, hD', hl]
+    exact_mod_cast this
+  have hD366 : 366 ≤ D' := by
+    have : (366 : Int) ≤ D' := by
+      rw [hD']; rcases daysInYear_cases (y : Int) with e | e <;> rw [e] <;> omega
+    exact_mod_cast this
+  have hmid : F64.years ⟨0, 0, y⟩ = add (ofNat y) ⟨1, 1⟩ := by
+    have hy0 : ¬ y = 0 := by omega
+    simp [F64.years, hy0]
+  rw [hmid, es, ee]
+  have hhalf : toQ (ofNat y) + toQ ⟨1, 1⟩ = (y : ℚ) + 1 / 2 := by simp [toQ, ofNat]
+  have hyq : (1 : ℚ) ≤ y := by exact_mod_cast hy
+  have hyq' : (y : ℚ) ≤ 9999 := by exact_mod_cast hy'
+  have em := add_err (ofNat y) ⟨1, 1⟩ 14 (by simp [ofNat]; omega) (by simp [ofNat])
+    (by rw [hhalf]; norm_num; linarith)
+  rw [hhalf] at em
+  have em' : |toQ (add (ofNat y) ⟨1, 1⟩) - ((y : ℚ) + 1 / 2)| ≤ 2 ^ 14 / 2 ^ 54 := by
+    rw [le_div_iff₀ (by positivity)]; exact em
+  have errs := yearsOf_err y yds D' hy hy' s1 s2 s3
+  have erre := yearsOf_err y yde D' hy hy' t1 t2 t3
+  have es' : |toQ (yearsOf y yds D') - ((y : ℚ) + (yds : ℚ) / D')| ≤ (2 ^ 14 + 1) / 2 ^ 54 := by
+    rw [le_div_iff₀ (by positivity)]; exact errs
+  have ee' : |toQ (yearsOf y yde D') - ((y : ℚ) + (yde : ℚ) / D')| ≤ (2 ^ 14 + 1) / 2 ^ 54 := by
+    rw [le_div_iff₀ (by positivity)]; exact erre
+  have bs := abs_le.mp es'
+  have be := abs_le.mp ee'
+  have bm := abs_le.mp em'
+  have hD0 : (0 : ℚ) < D' := by exact_mod_cast (by omega : 0 < D')
+  have hDq : (366 : ℚ) ≤ D' := by exact_mod_cast hD366
+  have hfirst : (yds : ℚ) / D' ≤ 1 / 366 := by
+    rw [hs1]; push_cast
+    exact one_div_le_one_div_of_le (by norm_num) hDq
+  have hlast : (365 : ℚ) / 366 ≤ (yde : ℚ) / D' := by
+    have : (yde : ℚ) = D' - 1 := by
+      have : ((yde + 1 : ℕ) : ℚ) = D' := by exact_mod_cast he1
+      push_cast at this; linarith
+    rw [this, le_div_iff₀ hD0]; linarith
+  have hnum : ((2 : ℚ) ^ 14 + 1) / 2 ^ 54 + 2 ^ 14 / 2 ^ 54 < 1 / 4 := by norm_num
+  rw [lt_iff_toQ, lt_iff_toQ]
+  constructor <;> linarith [bs.1, bs.2, be.1, be.2, bm.1, bm.2]
+
 /-- non-vacuity: 28 Feb 1900 and 1 Mar 1900 (1900 is not a leap year) meet the hypotheses -/
 example : Full ⟨28, 2, 1900⟩ ∧ Full ⟨1, 3, 1900⟩ ∧
     (⟨28, 2, 1900⟩ : Date).firstDay < (⟨1, 3, 1900⟩ : Date).firstDay := by
